@@ -214,7 +214,7 @@ def run(ctx, canary=False):
                         break
         if bad:
             ctx.violation("synthetic data does not realise the model: " + "; ".join(bad[:3]), info, {"kind": "synth"})
-        if n <= 400 and len(traces) < (600 if thorough else 80) and not bad:
+        if n <= 400 and len(traces) < (600 if thorough else 80) and not bad and not s["name"].startswith("wide"):
             evs = synth_events(m, s, ev, df, Z, total, method)
             if evs is None:
                 ctx.violation("more column-generation calls than groups", info, {"kind": "synth"})
